@@ -26,6 +26,8 @@ CUSTOM = {':--c': 'a.x', ':--d': ':--c > b'}
 COMPILE_OPS = [
     ('compile', ':lang(en)', None), ('compile', ':nth-child(2n+1)', None), ('compile', ':nth-of-type(2)', None), ('compile', ':dir(ltr)', None),
     ('compile', ':-soup-contains(x)', None), ('compile', 'p.a > b', None), ('compile', ':--c', 'C'), ('compile', 'div :--d', 'C'),
+    # a pattern that is rejected: every caller gets its own SelectorSyntaxError, whoever else is compiling the same text
+    ('compile', 'p.a >> b', None),
 ]
 MATCH_OPS = [('select', 'p:lang(en)', None), ('match', ':default', None), ('filter', ':nth-child(2)', None), ('closest', 'div:not(.x)', None),
              ('select', ':--c', 'C'), ('purge', '', None),
@@ -220,6 +222,9 @@ def pristine(sv):
     is a function of its schedule alone whatever ran earlier in the process."""
     global _PRISTINE
     if _PRISTINE is None:
+        import sys
+        # locks, events ... the library created at import time become cooperative ones (waiting on them is a scheduling event for the explorer)
+        sched.replace_real_primitives([m for n_, m in sorted(sys.modules.items()) if (n_ == 'soupsieve' or n_.startswith('soupsieve.')) and m is not None])
         caches, boxes = discover(sv)
         _PRISTINE = (caches, [(b, copy.copy(b)) for b in boxes])
     return _PRISTINE
@@ -262,7 +267,10 @@ class Harness:
         self.fresh = {}
         for op in ops:
             if op[0] != 'purge':
-                self.fresh[(op[1], op[2])] = self.fresh_parse(op)
+                try:
+                    self.fresh[(op[1], op[2])] = self.fresh_parse(op)
+                except Exception as e:
+                    self.fresh[(op[1], op[2])] = 'raise:' + type(e).__name__
         self.outcomes = {}
         self.replayed = 0
         # learning phase: the two (three) executions without any preemption, one per starting thread, with the shared-state digest sampled at
@@ -304,7 +312,7 @@ class Harness:
                     c = sv.compile(op[1], custom=dict(CUSTOM) if op[2] else None)
                     post.append(repr(c.selectors) == self.fresh[(op[1], op[2])])
                 except Exception as e:
-                    post.append('raise:' + type(e).__name__)
+                    post.append(True if self.fresh[(op[1], op[2])] == 'raise:' + type(e).__name__ else 'raise:' + type(e).__name__)
         ex.results.append(('cache-after', post))
         st = interpreter_state()
         ex.results.append(('interpreter-state', st == self.base_state, () if st == self.base_state else (self.base_state, st)))
@@ -339,13 +347,15 @@ def pairs(tier):
     out = []
     if tier == 'quick':
         # unordered pairs: which thread starts is itself a (free) scheduling choice, so (a, b) and (b, a) explore the same schedules
-        for a, b in itertools.combinations_with_replacement(range(len(COMPILE_OPS)), 2):
+        for a, b in itertools.combinations_with_replacement(range(8), 2):
             if b == 7 and a < 5:
                 continue        # the nested custom alias is the longest compile: paired with the plain pattern, the other alias and itself (thorough: with all)
             out.append(((COMPILE_OPS[a], COMPILE_OPS[b]), 1, False))
         for m in MATCH_OPS[:9]:
             out.append(((m, COMPILE_OPS[0]), 1, False))
             out.append(((m, m), 1, False))
+        out.append(((COMPILE_OPS[8], COMPILE_OPS[8]), 1, False))
+        out.append(((COMPILE_OPS[8], COMPILE_OPS[5]), 1, False))
         I = MATCH_OPS[9:]
         for a, b in ((0, 0), (2, 2), (3, 3), (4, 4), (5, 5), (5, 3)):
             out.append(((I[a], I[b]), 1, False))
